@@ -248,6 +248,10 @@ func genC13In(t *rapid.T) c13InScen {
 			s.Ops = append(s.Ops, c13InOp{Op: "exact", Topic: rapid.IntRange(0, 3).Draw(t, "topic"), QoS: byte(rapid.IntRange(0, 1).Draw(t, "qos"))})
 		}
 	}
+	// a conformant client that keeps its window full: the next PUBLISH follows the previous PUBACK immediately
+	if s.R <= 5 && rapid.IntRange(0, 2).Draw(t, "pingpong") == 0 {
+		s.Ops = append(s.Ops, c13InOp{Op: "pingpong", K: rapid.SampledFrom([]int{100, 400}).Draw(t, "rounds")})
+	}
 	s.Final = rapid.SampledFrom([]string{"", "alias_over", "alias_zero", "quota_over", "size_over"}).Draw(t, "final")
 	s.Burst = rapid.SampledFrom([]int{0, 0, 5, 40, 80}).Draw(t, "burst")
 	return s
@@ -437,6 +441,36 @@ func runC13In(s c13InScen, c *ev.Case) *ev.Violation {
 			if _, err := p.Publish(&mw.Packet{QoS: 1, PacketID: pid, Topic: c13InTopics[op.Topic], Payload: []byte(u)}); err != nil {
 				return lost(fmt.Sprintf("%d (pub1, outstanding %d of %d)", i, len(open)+1, advR), "outstanding", len(open)+1)
 			}
+		case "pingpong":
+			// fill the window up to R-1 with open QoS2 flows, then ping-pong QoS1 publishes at the limit
+			if len(open) > advR-1 {
+				c.Count("skipped_ops", 1) // the window is already full: one more publish would not be conformant
+				continue
+			}
+			for len(open) < advR-1 {
+				pid++
+				if err := p.Send(&mw.Packet{Type: mw.PUBLISH, QoS: 2, PacketID: pid, Topic: "i/0", Payload: []byte("fill")}); err != nil {
+					return lost("pingpong fill")
+				}
+				if _, err := p.WaitAck(mw.PUBREC, pid, fixture.DefaultWait); err != nil {
+					return lost("pingpong fill", "outstanding", len(open)+1)
+				}
+				open = append(open, pid)
+			}
+			c.Label("pingpong_at_receive_maximum")
+			boundary = true
+			for k := 0; k < op.K; k++ {
+				pid++
+				if pid == 0 {
+					pid = 1
+				}
+				if err := p.Send(&mw.Packet{Type: mw.PUBLISH, QoS: 1, PacketID: pid, Topic: "i/1", Payload: []byte("pp")}); err != nil {
+					return lost(fmt.Sprintf("%d (ping-pong round %d at the receive maximum)", i, k), "outstanding", advR, "pingpong_round", k)
+				}
+				if _, err := p.WaitAck(mw.PUBACK, pid, fixture.DefaultWait); err != nil {
+					return lost(fmt.Sprintf("%d (ping-pong round %d at the receive maximum)", i, k), "outstanding", advR, "pingpong_round", k)
+				}
+			}
 		case "exact":
 			if advP > 4096 || (op.QoS > 0 && len(open) >= advR) {
 				c.Count("skipped_ops", 1)
@@ -481,6 +515,9 @@ func runC13In(s c13InScen, c *ev.Case) *ev.Violation {
 		u := string(r.P.Payload)
 		if len(u) > 4 {
 			u = u[:4]
+		}
+		if u == "fill" || u == "pp" {
+			continue // window filler / ping-pong traffic
 		}
 		want, ok := expect[u]
 		if !ok {
